@@ -99,6 +99,20 @@ pub fn gen(tier: &str, rng: &mut Rng, emit: &mut Emit) {
             emit.case(14, history(rng, c, ops));
         }
     }
+    // value RELATIONS between successive assignments to one cell (through either orientation): equal, neighbours, differing
+    // by 127 / 128 / 129 (twice 128 is 0 mod 256: a doubled checksum delta vanishes), complement, back to the default 10
+    for n in [2u64, 3, 5] {
+        for (ia, ib) in [(0u64, 1u64), (1, 0), (n - 1, n - 1), (0, 0)] {
+            for first in [10u64, 0, 255, 20, 138] {
+                for delta in [0u64, 1, 127, 128, 129, 255] {
+                    let second = (first + delta) & 0xff;
+                    let c = rand_ctor(rng, n);
+                    let ops = vec![set(ia, ib, first), set(ib, ia, second), set(ia, ib, second ^ 0xff), set(ia, ib, 10)];
+                    emit.case(14, history(rng, c, ops));
+                }
+            }
+        }
+    }
     // the whole value range on one cell and on the diagonal
     {
         let c = rand_ctor(rng, 3);
